@@ -17,6 +17,12 @@ func main() {
 		os.Exit(2)
 	}
 	switch os.Args[1] {
+	case "replay":
+		if len(os.Args) < 3 {
+			fmt.Println("usage: raftmc replay <file> [-v]")
+			os.Exit(2)
+		}
+		os.Exit(mc.ReplayMain(os.Args[2], len(os.Args) > 3))
 	case "small":
 		fs := flag.NewFlagSet("small", flag.ExitOnError)
 		prop := fs.String("prop", "", "property id")
